@@ -766,9 +766,299 @@ def install11(ip):
     ip.pattern_models = [
         (re.compile(r' as AsRef<str>>::as_ref$'), m_as_ref_str),
         (re.compile(r'^String::push_str$'), m_string_push_str),
-        (re.compile(r'^<str as Index<RangeFrom<usize>>>::index$|^<String as Index<RangeFrom<usize>>>::index$'), m_str_index_rangefrom),
+        (re.compile(r'^<(str|String) as Index<(std::ops::)?RangeFrom<usize>>>::index$'), m_str_index_rangefrom),
         (re.compile(r'^<u64 as From<u8>>::from$|^<usize as From<.*>>::from$'), lambda ip, c, a: a[0]),
     ] + ip.pattern_models
 
+# ---- eighth batch: more iterator / option / result / vec surface
+def items_of(v):
+    v = unref(v)
+    if isinstance(v, list): return v
+    if isinstance(v, Agg) and v.ty == 'Vec': return v.fields[0].v
+    raise Unsupported("items of %r" % (v,))
+def as_iter_ref(x): return x if isinstance(x, Ref) else Ref(Cell(x))
+def iter_next2(ip, it):
+    t = unref(it)
+    if t.ty == 'FilterMap':
+        while True:
+            r = iter_next2(ip, Ref(t.fields[0]))
+            if r.variant == 'None': return r
+            o = ip.call_value(t.fields[1].v, [r.fields[0].v])
+            if o.variant == 'Some': return o
+    if t.ty == 'Cloned':
+        r = iter_next2(ip, Ref(t.fields[0]))
+        if r.variant == 'None': return r
+        return opt_some(clone_value(ip, unref(r.fields[0].v)))
+    if t.ty == 'Rev':
+        lst = t.fields[0].v; i = t.fields[1].v
+        if i <= 0: return OPT_NONE()
+        t.fields[1].v = i - 1; return opt_some(Ref(lst[i - 1]) if t.fields[2].v else lst[i - 1].v)
+    if t.ty == 'Skip':
+        while t.fields[1].v > 0:
+            t.fields[1].v -= 1
+            r = iter_next2(ip, Ref(t.fields[0]))
+            if r.variant == 'None': return r
+        return iter_next2(ip, Ref(t.fields[0]))
+    if t.ty == 'Take':
+        if t.fields[1].v <= 0: return OPT_NONE()
+        t.fields[1].v -= 1
+        return iter_next2(ip, Ref(t.fields[0]))
+    if t.ty == 'Zip':
+        a = iter_next2(ip, Ref(t.fields[0]))
+        if a.variant == 'None': return a
+        b = iter_next2(ip, Ref(t.fields[1]))
+        if b.variant == 'None': return b
+        return opt_some(Agg('tuple', None, [Cell(a.fields[0].v), Cell(b.fields[0].v)]))
+    if t.ty == 'Chars':
+        s = t.fields[0].v; i = t.fields[1].v
+        if is_sym(s): raise Unsupported("chars of symbolic string")
+        if i >= len(s): return OPT_NONE()
+        t.fields[1].v = i + 1; return opt_some(s[i])
+    if t.ty == 'RangeIter':
+        i = t.fields[0].v; e = t.fields[1].v
+        if is_sym(i) or is_sym(e):
+            if not ip.branch(ip.binop(None, 'Lt', i, e, None)): return OPT_NONE()
+        elif i >= e: return OPT_NONE()
+        t.fields[0].v = ip.binop(None, 'Add', i, 1, None) if is_sym(i) else i + 1
+        return opt_some(i)
+    return iter_next(ip, it)
+_old_iter_next = iter_next
+def iter_next(ip, it):
+    t = unref(it)
+    if getattr(t, 'ty', None) in ('FilterMap', 'Cloned', 'Rev', 'Skip', 'Take', 'Zip', 'Chars', 'RangeIter'): return iter_next2(ip, it)
+    return _old_iter_next(ip, it)
+def m_iter_next_any(ip, c, a): return iter_next(ip, a[0])
+def m_iter_filter_map(ip, c, a): return Agg('FilterMap', None, [Cell(a[0]), Cell(a[1])])
+def m_iter_cloned(ip, c, a): return Agg('Cloned', None, [Cell(a[0])])
+def m_iter_skip(ip, c, a): return Agg('Skip', None, [Cell(a[0]), Cell(a[1])])
+def m_iter_take(ip, c, a): return Agg('Take', None, [Cell(a[0]), Cell(a[1])])
+def m_iter_zip(ip, c, a): return Agg('Zip', None, [Cell(a[0]), Cell(m_into_iter(ip, c, [a[1]]))])
+def m_iter_rev(ip, c, a):
+    t = a[0]
+    if isinstance(t, Agg) and t.ty in ('SliceIter', 'VecIntoIter'):
+        lst = t.fields[0].v[t.fields[1].v:]
+        return Agg('Rev', None, [Cell(lst), Cell(len(lst)), Cell(t.ty == 'SliceIter')])
+    raise Unsupported("rev of " + repr(t)[:60])
+def m_iter_count(ip, c, a):
+    it = as_iter_ref(a[0]); n = 0
+    while iter_next(ip, it).variant != 'None': n += 1
+    return n
+def m_iter_last(ip, c, a):
+    it = as_iter_ref(a[0]); last = OPT_NONE()
+    while True:
+        r = iter_next(ip, it)
+        if r.variant == 'None': return last
+        last = r
+def m_iter_find(ip, c, a):
+    it = as_iter_ref(a[0])
+    while True:
+        r = iter_next(ip, it)
+        if r.variant == 'None': return r
+        if ip.branch(ip.call_value(a[1], [Ref(Cell(r.fields[0].v))])): return r
+def m_iter_position(ip, c, a):
+    it = as_iter_ref(a[0]); i = 0
+    while True:
+        r = iter_next(ip, it)
+        if r.variant == 'None': return r
+        if ip.branch(ip.call_value(a[1], [r.fields[0].v])): return opt_some(i)
+        i += 1
+def m_iter_all(ip, c, a):
+    it = as_iter_ref(a[0])
+    while True:
+        r = iter_next(ip, it)
+        if r.variant == 'None': return True
+        if not ip.branch(ip.call_value(a[1], [r.fields[0].v])): return False
+def m_iter_sum(ip, c, a):
+    it = as_iter_ref(a[0]); acc = 0
+    while True:
+        r = iter_next(ip, it)
+        if r.variant == 'None': return acc
+        acc = ip.binop(None, 'Add', acc, unref(r.fields[0].v), None)
+def m_collect_any(ip, c, a):
+    it = as_iter_ref(a[0]); out = []
+    while True:
+        r = iter_next(ip, it)
+        if r.variant == 'None': break
+        out.append(Cell(r.fields[0].v))
+    m = re.search(r'collect::<(.*)>$', c)
+    target = m.group(1) if m else ''
+    if target.startswith(('Vec<', 'std::vec::Vec<')) or target == 'Vec<_>': return Agg('Vec', None, [Cell(out)])
+    if target.startswith('String'):
+        return sconcat([x.v if not isinstance(x.v, Ref) else unref(x.v) for x in out])
+    if 'HashMap<' in target:
+        d = ip.resolve('vstd::vmap::HashMap::new'); mp = ip.call_fn(d, [])
+        ins = ip.resolve('vstd::vmap::HashMap::insert')
+        for x in out: ip.call_fn(ins, [Ref(Cell(mp)), x.v.fields[0].v, x.v.fields[1].v])
+        return mp
+    raise Unsupported("collect into " + target)
+def m_result_ok(ip, c, a):
+    r = a[0]
+    return opt_some(r.fields[0].v) if r.variant == 'Ok' else OPT_NONE()
+def m_result_err(ip, c, a):
+    r = a[0]
+    return opt_some(r.fields[0].v) if r.variant == 'Err' else OPT_NONE()
+def m_result_is_err(ip, c, a): return unref(a[0]).variant == 'Err'
+def m_result_map_err(ip, c, a):
+    r = a[0]
+    return r if r.variant == 'Ok' else res_err(ip.call_value(a[1], [r.fields[0].v]))
+def m_result_map(ip, c, a):
+    r = a[0]
+    return res_ok(ip.call_value(a[1], [r.fields[0].v])) if r.variant == 'Ok' else r
+def m_unwrap_or_else(ip, c, a):
+    r = a[0]
+    if r.variant in ('Some', 'Ok'): return r.fields[0].v
+    return ip.call_value(a[1], [r.fields[0].v] if r.variant == 'Err' else [])
+def m_unwrap_or_default(ip, c, a):
+    r = a[0]
+    if r.variant in ('Some', 'Ok'): return r.fields[0].v
+    if 'String' in c: return ""
+    return 0
+def m_option_ok_or(ip, c, a):
+    o = a[0]
+    return res_ok(o.fields[0].v) if o.variant == 'Some' else res_err(a[1])
+def m_option_and_then(ip, c, a):
+    o = a[0]
+    return ip.call_value(a[1], [o.fields[0].v]) if o.variant in ('Some', 'Ok') else o
+def m_option_cloned(ip, c, a):
+    o = a[0]
+    return opt_some(clone_value(ip, unref(o.fields[0].v))) if o.variant == 'Some' else o
+def m_option_as_mut(ip, c, a):
+    o = unref(a[0])
+    return opt_some(Ref(o.fields[0])) if o.variant == 'Some' else OPT_NONE()
+def m_option_take(ip, c, a):
+    cell = a[0].cell; old = cell.v; cell.v = OPT_NONE(); return old
+def m_option_unwrap_unchecked(ip, c, a): return a[0].fields[0].v
+def m_sort_by(ip, c, a):
+    items = items_of(a[0]); f = a[1]
+    vals = [x.v for x in items]
+    out = []
+    for v in vals:   # insertion sort (stable), comparator decides through branches
+        i = len(out)
+        while i > 0:
+            o = ip.call_value(f, [Ref(Cell(out[i - 1])), Ref(Cell(v))])
+            if o.variant == 'Greater': i -= 1
+            else: break
+        out.insert(i, v)
+    for cell, v in zip(items, out): cell.v = v
+    return UNIT
+def m_ord_cmp(ip, c, a):
+    x, y = unref(a[0]), unref(a[1])
+    if isinstance(x, str) and isinstance(y, str): return Agg('Ordering', 'Less' if x < y else ('Equal' if x == y else 'Greater'), [])
+    return ip.binop(None, 'Cmp', x, y, None)
+def m_vec_retain(ip, c, a):
+    v = unref(a[0]); items = v.fields[0].v; keep = []
+    for x in items:
+        if ip.branch(ip.call_value(a[1], [Ref(x)])): keep.append(x)
+    v.fields[0].v = keep; return UNIT
+def m_vec_dedup(ip, c, a):
+    v = unref(a[0]); items = v.fields[0].v; out = []
+    for x in items:
+        if out and ip.branch(m_generic_eq(ip, c, [out[-1].v, x.v])): continue
+        out.append(x)
+    v.fields[0].v = out; return UNIT
+def m_vec_clear(ip, c, a): unref(a[0]).fields[0].v = []; return UNIT
+def m_vec_truncate(ip, c, a): v = unref(a[0]); v.fields[0].v = v.fields[0].v[:a[1]]; return UNIT
+def m_vec_extend(ip, c, a):
+    v = unref(a[0]); it = as_iter_ref(m_into_iter(ip, c, [a[1]]))
+    while True:
+        r = iter_next(ip, it)
+        if r.variant == 'None': return UNIT
+        v.fields[0].v.append(Cell(r.fields[0].v))
+def m_vec_contains(ip, c, a):
+    for x in items_of(a[0]):
+        if ip.branch(m_generic_eq(ip, c, [x.v, a[1]])): return True
+    return False
+def m_slice_index_range(ip, c, a):
+    items = items_of(a[0]); r = a[1]
+    n = len(items)
+    if r.ty == 'RangeFrom': lo, hi = r.fields[0].v, n
+    elif r.ty == 'RangeTo': lo, hi = 0, r.fields[0].v
+    elif r.ty == 'RangeFull': lo, hi = 0, n
+    else: lo, hi = r.fields[0].v, r.fields[1].v
+    if is_sym(lo) or is_sym(hi): raise Unsupported("symbolic slice range")
+    if lo > hi: raise Panic("slice index starts at %d but ends at %d" % (lo, hi))
+    if hi > n: raise Panic("range end index %d out of range for slice of length %d" % (hi, n))
+    return Ref(Cell(items[lo:hi]))
+def m_slice_first(ip, c, a):
+    items = items_of(a[0])
+    return opt_some(Ref(items[0])) if items else OPT_NONE()
+def m_slice_get(ip, c, a):
+    items = items_of(a[0]); i = a[1]
+    if is_sym(i): raise Unsupported("symbolic index")
+    return opt_some(Ref(items[i])) if 0 <= i < len(items) else OPT_NONE()
+def m_vec_from_elem(ip, c, a): return Agg('Vec', None, [Cell([Cell(deep_copy_val(a[0])) for _ in range(a[1])])])
+def m_slice_to_vec(ip, c, a): return Agg('Vec', None, [Cell([Cell(clone_value(ip, x.v)) for x in items_of(a[0])])])
+def m_vec_from_array(ip, c, a): return Agg('Vec', None, [Cell(list(items_of(a[0])))])
+def m_box_new(ip, c, a): return Agg('Box', None, [Cell(a[0])])
+def m_chars(ip, c, a): return Agg('Chars', None, [Cell(val_of_strlike(a[0])), Cell(0)])
+def m_str_is_empty(ip, c, a):
+    s = val_of_strlike(a[0])
+    if not is_sym(s): return s == ""
+    if isinstance(s, SCat) and any(isinstance(q, str) for q in s.parts): return False
+    return T('(= %s "")', 'Bool', s.s)
+def m_string_from_utf8(ip, c, a):
+    items = items_of(a[0]); vals = [x.v for x in items]
+    if all(isinstance(b, int) for b in vals):
+        try: return res_ok(bytes(vals).decode('utf-8'))
+        except UnicodeDecodeError: return res_err(Agg('FromUtf8Error', None, []))
+    parts = []
+    for b in vals:
+        if isinstance(b, int): parts.append(chr(b) if b < 128 else None)
+        elif isinstance(b, Term) and b.sort == 'Int': parts.append(T('(str.from_code %s)', 'String', b.s))
+        elif isinstance(b, CharOf): parts.append(b)
+        else: raise Unsupported("from_utf8 of %r" % (b,))
+    if any(p is None for p in parts): raise Unsupported("from_utf8 mixing symbolic and non-ASCII bytes")
+    return res_ok(join_chars(ip, parts))
+class CharOf:
+    """i-th byte of a symbolic ASCII string of known concrete length"""
+    __slots__ = ('t', 'i', 'n')
+    def __init__(self, t, i, n): self.t = t; self.i = i; self.n = n
+    def __repr__(self): return "CharOf(%s,%d)" % (self.t.s, self.i)
+def join_chars(ip, parts):
+    out = []; k = 0
+    while k < len(parts):
+        p = parts[k]
+        if isinstance(p, CharOf) and p.i == 0 and k + p.n <= len(parts) and all(isinstance(parts[k + j], CharOf) and parts[k + j].t is p.t and parts[k + j].i == j for j in range(p.n)):
+            out.append(p.t); k += p.n; continue
+        if isinstance(p, CharOf): out.append(T('(str.at %s %d)', 'String', p.t.s, p.i))
+        else: out.append(p)
+        k += 1
+    return sconcat(out)
+def m_as_bytes(ip, c, a):
+    s = val_of_strlike(a[0])
+    if not is_sym(s): return Ref(Cell([Cell(b) for b in s.encode()]))
+    out = []
+    for q in parts_of(s):
+        if isinstance(q, str): out.extend(Cell(b) for b in q.encode())
+        else:
+            n = ip.strlen_concrete(q)
+            out.extend(Cell(CharOf(q, i, n)) for i in range(n))
+    return Ref(Cell(out))
+def m_into_bytes(ip, c, a): return Agg('Vec', None, [Cell(m_as_bytes(ip, c, a).cell.v)])
+
+def install12(ip):
+    P = lambda rx, f: (re.compile(rx), f)
+    ip.pattern_models = [
+        P(r' as Iterator>::filter_map$', m_iter_filter_map), P(r' as Iterator>::cloned$', m_iter_cloned), P(r' as Iterator>::skip$', m_iter_skip),
+        P(r' as Iterator>::take$', m_iter_take), P(r' as Iterator>::zip$', m_iter_zip), P(r' as Iterator>::rev$', m_iter_rev),
+        P(r' as Iterator>::count$', m_iter_count), P(r' as Iterator>::last$', m_iter_last), P(r' as Iterator>::find$', m_iter_find),
+        P(r' as Iterator>::position$', m_iter_position), P(r' as Iterator>::all$', m_iter_all), P(r' as Iterator>::sum$', m_iter_sum),
+        P(r' as Iterator>::collect$', m_collect_any),
+        P(r'^<(FilterMap|Cloned|Rev|Skip|Take|Zip|Chars|std::str::Chars|std::iter::\w+|std::ops::Range)<.* as Iterator>::next$', m_iter_next_any),
+        P(r'^<(std::str::)?Chars<.*> as Iterator>::next$', m_iter_next_any),
+        P(r'^Result::ok$', m_result_ok), P(r'^Result::err$', m_result_err), P(r'^Result::is_err$', m_result_is_err), P(r'^Result::map_err$', m_result_map_err),
+        P(r'^Result::map$', m_result_map), P(r'^(Option|Result)::unwrap_or_else$', m_unwrap_or_else), P(r'^(Option|Result)::unwrap_or_default$', m_unwrap_or_default),
+        P(r'^Option::ok_or$', m_option_ok_or), P(r'^(Option|Result)::and_then$', m_option_and_then), P(r'^Option::cloned$', m_option_cloned),
+        P(r'^Option::as_mut$', m_option_as_mut), P(r'^Option::take$', m_option_take), P(r'^(Option|Result)::unwrap_unchecked$', m_option_unwrap_unchecked),
+        P(r'impl \[.*\]>::sort_by$', m_sort_by), P(r'^<[iu](\d+|size) as Ord>::cmp$|^<(String|str) as Ord>::cmp$', m_ord_cmp),
+        P(r'^Vec::retain$', m_vec_retain), P(r'^Vec::dedup$', m_vec_dedup), P(r'^Vec::clear$', m_vec_clear), P(r'^Vec::truncate$', m_vec_truncate),
+        P(r'^<Vec<.*> as Extend<.*>>::extend$', m_vec_extend), P(r'impl \[.*\]>::contains$', m_vec_contains),
+        P(r'^<(Vec<.*>|\[.*\]) as Index(Mut)?<(std::ops::)?Range(From|To|Full)?(<usize>)?>>::index(_mut)?$', m_slice_index_range),
+        P(r'impl \[.*\]>::first$', m_slice_first), P(r'impl \[.*\]>::get$', m_slice_get),
+        P(r'^std::vec::from_elem$|^from_elem$', m_vec_from_elem), P(r'impl \[.*\]>::to_vec$', m_slice_to_vec), P(r'impl \[.*\]>::into_vec$|^<Vec<.*> as From<\[.*\]>>::from$', m_vec_from_array),
+        P(r'^Box::new$|^Box::<.*>::new$', m_box_new), P(r'impl str>::chars$', m_chars), P(r'impl str>::is_empty$|^String::is_empty$', m_str_is_empty),
+        P(r'^String::from_utf8$', m_string_from_utf8), P(r'impl str>::as_bytes$|^String::as_bytes$', m_as_bytes), P(r'^String::into_bytes$', m_into_bytes),
+    ] + ip.pattern_models
+
 def install_all(ip):
-    install(ip); install2(ip); install3(ip); install4(ip); install5(ip); install6(ip); install7(ip); install8(ip); install9(ip); install10(ip); install11(ip)
+    install(ip); install2(ip); install3(ip); install4(ip); install5(ip); install6(ip); install7(ip); install8(ip); install9(ip); install10(ip); install11(ip); install12(ip)
